@@ -367,13 +367,14 @@ def run(chk):
     p_status_dump(chk)
     p_create_zip(chk)
     p_make_zip(chk)
+    p_write_zip(chk)
     p_download(chk)
     p_render_block(chk)
     bounded(chk)
     chk.assumptions += [
         "tempfile.mkstemp returns a fresh name different from the published path",
         "POSIX rename/replace is atomic within one file system; a process kill loses user-space buffers only (no power loss: fsync is not required by the statement)",
-        "writers (ZipCreator._write_zip, zip_dir, the render writer) write only to the path they are given (callee contract)",
+        "writers (zip_dir, the render writer) write only to the path they are given (callee contract); ZipCreator._write_zip: its body is verified for 'an I/O error while adding a member propagates' on small directory shapes, 'writes only to its path' stays assumed",
         "make_nuwiki writes only below the fresh temp directory it is given",
         "the render() function body is covered by static protocol obligations, not by symbolic execution",
         "download: the caller passes temp_path = path + a non-empty suffix without '/' (fetch.py: path + one character); httpx client/response contracts as modelled",
@@ -428,6 +429,7 @@ def p_download(chk):
     def retry_inv(I, v, it):
         rs = v["retry_state"]
         tr = fsmodel.trace(I)
+        I.ghost.setdefault("trace_len_at_loop_entry", len(tr))      # what happened before the loop stays on the trace
         open_now = [e for e in tr if e[0] == "open_w"]
         closed = [e for e in tr if e[0] == "close"]
         return [("retry_state_is_a_record", isinstance(rs, PObj) and "retry_count" in rs.fields),
@@ -440,7 +442,9 @@ def p_download(chk):
         v["retry_state"] = PObj(rs.cls, {"retry_count": I.fresh_int("retry_count"), "delay": I.fresh_int("delay")})
         # earlier attempts: the temp file may have been written (and closed); nothing else happened
         tr = fsmodel.trace(I)
+        before = tr[:I.ghost.get("trace_len_at_loop_entry", 0)]
         del tr[:]
+        tr.extend(before)
         tr.append(("contract_write", v["temp_path"], "earlier attempts"))
     ex.loopspecs[(TRANSPORT + ":download_with_retries", 0)] = LoopSpec(
         retry_inv, lambda I, v, it: z3.If(I._int_term(v["retry_policy"].fields["max_retries"]) - I._int_term(v["retry_state"].fields["retry_count"]) >= 0,
@@ -471,3 +475,79 @@ def p_download(chk):
     ex.methods[("logger", "error")] = Model("logger.error", lambda I, l, *a: None)
     ex.methods[("logger", "warning")] = Model("logger.warning", lambda I, l, *a: None)
     chk.prove("transport.download_with_retries", harness, ex, targets=[dl, st], replay=replay_crash)
+
+
+# ----------------------------------------------------------------------------- ZipCreator._write_zip: an I/O error while adding a member is not survived
+def p_write_zip(chk):
+    """The zip producers rename the temp zip over the published name when _write_zip returns.  Its contract (the one
+    create_zip / make_zip assume) therefore includes: it returns normally only if every member it set out to add was
+    added without an I/O error - an error in zf.write (ENOSPC, EIO, a vanished source) propagates as OSError.
+    Directory shapes: 1-2 directories with 0-2 files each (the loops are over concrete lists; file names symbolic)."""
+    ex = base_explorer()
+    fn = ex.function(BUILDZIP, "ZipCreator._write_zip")
+
+    def zf_write(I, zf, filepath, arcname=None, *a, **k):
+        I.ghost["members"].append(filepath)
+        if I.decide(I.fresh("io_error_adding_member", z3.BoolSort())):
+            I.ghost["failed"].append(filepath)
+            I.throw("OSError", "injected I/O error in ZipFile.write")
+    ex.methods[("zipf", "write")] = Model("ZipFile.write", zf_write)
+    ex.models["zipfile.ZipFile"] = Model("zipfile.ZipFile", lambda I, path, mode="r", **kw: CtxMgr(lambda I2: PObj("zipf", {"path": path}), lambda I2, exc: False))
+    ex.models["zipfile.ZIP_DEFLATED"] = 8
+    ex.models["os.path.relpath"] = Model("os.path.relpath", lambda I, p, start=None: I.fresh_str("relpath"))
+    ex.models["os.path.splitext"] = Model("os.path.splitext", lambda I, p: (I.fresh_str("root"), I.fresh_str("ext")))
+
+    def harness(I):
+        I.ghost["members"], I.ghost["failed"] = [], []
+        shape = [(0,), (1,), (2,), (1, 1), (2, 0), (0, 2), (2, 2)][I.choose(7, "directory_shape")]
+        n = [0]
+
+        def fname():
+            n[0] += 1
+            return I.fresh_str(f"file{n[0]}")
+        walk = [(I.fresh_str(f"dir{k}"), [], [fname() for _ in range(c)]) for k, c in enumerate(shape)]
+        ex.models["os.walk"] = Model("os.walk", lambda I2, top: walk)
+        skip = None if I.decide(I.fresh("no_skip_ext", z3.BoolSort())) else I.fresh_str("skip_ext")
+        out = ex.run_function(I, fn, [I.fresh_str("source_dir"), I.fresh_str("zip_path")], {"skip_ext": skip})
+        failed = I.ghost["failed"]
+        I.oblige("a_failed_member_write_is_not_survived" + ("" if not (failed and out.returned) else "[returned normally after an I/O error]"),
+                 (not failed) or out.raised("OSError") is True or (not out.returned and out.exc.cls.name == "OSError"))
+        if out.returned:
+            total = sum(shape)
+            I.oblige("every_file_is_added_unless_skipped_by_extension", len(I.ghost["members"]) == total if skip is None else len(I.ghost["members"]) <= total)
+        else:
+            I.oblige("raises_only_after_an_io_error", len(failed) > 0)
+    chk.prove("buildzip.ZipCreator._write_zip", harness, ex, targets=[fn], replay=replay_write_zip)
+
+
+def replay_write_zip(model, obligation):
+    """real _write_zip on a real directory with ZipFile.write failing once: does the error come out?"""
+    import os, shutil, tempfile, zipfile
+    from mwlib.apps import buildzip
+    d = tempfile.mkdtemp(prefix="verif_c20_")
+    real = zipfile.ZipFile.write
+    try:
+        src = os.path.join(d, "src")
+        os.makedirs(src)
+        for nme in ("a.txt", "b.txt", "c.txt"):
+            open(os.path.join(src, nme), "w").write(nme * 100)
+        calls = []
+
+        def failing(self, filename, *a, **k):
+            calls.append(filename)
+            if len(calls) == 2:
+                raise OSError(28, "No space left on device")
+            return real(self, filename, *a, **k)
+        zipfile.ZipFile.write = failing
+        try:
+            buildzip.ZipCreator._write_zip(src, os.path.join(d, "out.zip"))
+        except OSError:
+            return False, {"cases": 1}, None
+        finally:
+            zipfile.ZipFile.write = real
+        names = zipfile.ZipFile(os.path.join(d, "out.zip")).namelist()
+        return True, {"schedule": "ENOSPC while adding the second of three files", "result": f"_write_zip returned normally; archive holds {names}",
+                      "consequence": "create_zip / make_zip rename the incomplete zip over the published name"}, "io_error_survived"
+    finally:
+        zipfile.ZipFile.write = real
+        shutil.rmtree(d, ignore_errors=True)
